@@ -141,6 +141,10 @@ def shrink(rec, budget_s, log=lambda *a: None):
       'steps': final['steps'], 'minimised': True, 'shrink_tries': tries,
       'forced_switches': sum(1 for d in decisions if d),
       'tail': [list(map(str, e)) for e in final['tail'][-160:]],
+      'thread_names': {str(k): v for k, v in final['thread_names'].items()},
+      'blocked_at_end': (final['failure'].detail.get('threads')
+                         if final.get('failure') is not None else
+                         final.get('leftover')),
   })
   return out
 
